@@ -31,7 +31,7 @@ func classOfOrigins(o map[string]bool) (user, param bool, tag string) {
 
 func checkC06(r *Run) propMeta {
 	meta := propMeta{Level: "other",
-		Explanation: "Decides the capture-freedom necessary condition of hygienic translation by provenance (origin-tag) analysis of identifier values in package translate: (R1) the alias table (Scope.aliases, reached through Alias/AliasedLookup/LookupString) holds user variable and projection-alias symbols; a key derived from a parameter symbol must carry an injective constant tag so that $n and n cannot meet, and no single key expression mixes both classes; (R2) the definitions table (Scope.Lookup/LookupBindings/Define), which is keyed by generated identifiers, is never indexed with a value derived from a user or parameter symbol; (R3) BoundIdentifier.Parameter is dereferenced only on a binding obtained through a parameter-class key or freshly defined as a parameter. NOT decided: that renamed twins produce byte-identical SQL apart from aliases and parameter keys (value-level), and user aliases rendered as output column names (reported under C04).",
+		Explanation: "Decides the capture-freedom necessary condition of hygienic translation by provenance (origin-tag) analysis of identifier values in package translate: (R1) the alias table (Scope.aliases, reached through Alias/AliasedLookup/LookupString) holds user variable and projection-alias symbols; a key derived from a parameter symbol must carry an injective constant tag so that $n and n cannot meet, and no single key expression mixes both classes; (R2) the definitions table (Scope.Lookup/LookupBindings/Define), which is keyed by generated identifiers, is never indexed with a value derived from a user or parameter symbol; (R3) BoundIdentifier.Parameter is dereferenced only on a binding obtained through a parameter-class key or freshly defined as a parameter. (R4) wherever one identifier is looked up in both tables inside one function, the generated-name table (Lookup) is consulted before the user-symbol table (AliasedLookup), so a user symbol spelled like a generated name cannot capture the lookup. (R5) the functions that substitute a user-chosen alias into an expression (table c06_alias_substitutions, confirmed by reading) are called on an expression only after RewriteFrameBindings has run on it, never before. NOT decided: that renamed twins produce byte-identical SQL apart from aliases and parameter keys (value-level), and user aliases rendered as output column names (reported under C04).",
 		Assumptions: []string{"origin tags are flow-insensitive within a function; parameters are resolved through static call sites; return summaries add constants/fields flowing into a callee's first result"},
 		TrustedBase: []string{"go/types", "this analyser"}}
 	if err := r.Load("./cypher/..."); err != nil {
@@ -155,6 +155,100 @@ func checkC06(r *Run) propMeta {
 			})
 		}
 	}
+	// ---- R4: where one identifier is tried against both tables, the generated-name table is tried first.
+	// At these sites the identifier has normally already been renamed; a user symbol that happens to be spelled like
+	// a generated name (e0, pc0) must not capture the lookup, so the alias table is only the fallback.
+	for _, f := range tp.Syntax {
+		for _, d := range f.Decls {
+			fd, ok := d.(*ast.FuncDecl)
+			if !ok || fd.Body == nil {
+				continue
+			}
+			first := map[string]map[string]token.Pos{} // argument text -> method -> first position
+			ast.Inspect(fd.Body, func(n ast.Node) bool {
+				call, ok := n.(*ast.CallExpr)
+				if !ok || len(call.Args) != 1 {
+					return true
+				}
+				fn := calleeOf(info, call)
+				if !isScopeMethod(fn) || (fn.Name() != "Lookup" && fn.Name() != "AliasedLookup") {
+					return true
+				}
+				arg := exprString(r.Fset, call.Args[0])
+				if first[arg] == nil {
+					first[arg] = map[string]token.Pos{}
+				}
+				if _, seen := first[arg][fn.Name()]; !seen {
+					first[arg][fn.Name()] = call.Pos()
+				}
+				return true
+			})
+			for _, arg := range sortedKeys(first) {
+				lp, hasL := first[arg]["Lookup"]
+				ap, hasA := first[arg]["AliasedLookup"]
+				if !hasL || !hasA {
+					continue
+				}
+				construct := funcDeclName(fd) + ":" + arg
+				if lp < ap {
+					r.Pass("C06-R4-generated-first", construct, lp, "Scope.Lookup(%s) is tried before Scope.AliasedLookup(%s)", arg, arg)
+				} else {
+					r.Fail("C06-R4-generated-first", construct, ap, "%s tries the user-symbol table (AliasedLookup) before the generated-name table (Lookup) for the same identifier %s: a user variable spelled like a generated name (e0, pc0, n1) captures the lookup and the query is translated against the wrong binding", funcDeclName(fd), arg)
+				}
+			}
+		}
+	}
+	r.Floor("C06-R4-generated-first", 2)
+	// ---- R5: user alias text is substituted into an expression only after the frame rewriter has run on it.
+	// The frame rewriter resolves every identifier of the tree in the generated-name table; an alias the user chose
+	// (n0, n1, s0 …) that is already in the tree when it runs is taken for the generated identifier of that spelling.
+	subst := r.LoadTable("c06_alias_substitutions")
+	for _, f := range tp.Syntax {
+		for _, d := range f.Decls {
+			fd, ok := d.(*ast.FuncDecl)
+			if !ok || fd.Body == nil {
+				continue
+			}
+			type site struct {
+				pos token.Pos
+				arg string
+				fn  string
+			}
+			var substs, rewrites []site
+			ast.Inspect(fd.Body, func(n ast.Node) bool {
+				call, ok := n.(*ast.CallExpr)
+				if !ok {
+					return true
+				}
+				fn := calleeOf(info, call)
+				if fn == nil || fn.Pkg() != tp.Types {
+					return true
+				}
+				if _, listed := r.InTable(subst, "c06_alias_substitutions", fn.Name()); listed && len(call.Args) >= 1 {
+					substs = append(substs, site{call.Pos(), exprString(r.Fset, call.Args[0]), fn.Name()})
+				}
+				if fn.Name() == "RewriteFrameBindings" && len(call.Args) == 2 {
+					rewrites = append(rewrites, site{call.Pos(), exprString(r.Fset, call.Args[1]), fn.Name()})
+				}
+				return true
+			})
+			for _, sb := range substs {
+				construct := funcDeclName(fd) + ":" + sb.fn + "(" + sb.arg + ")"
+				late := token.NoPos
+				for _, rw := range rewrites {
+					if rw.arg == sb.arg && rw.pos > sb.pos {
+						late = rw.pos
+					}
+				}
+				if late != token.NoPos {
+					r.Fail("C06-R5-alias-after-frame-rewrite", construct, late, "RewriteFrameBindings runs on %s after %s has put the user's alias text into it: an alias spelled like a live generated identifier (n0, n1) is rewritten to that identifier's frame column and the statement sorts by a different value", sb.arg, sb.fn)
+				} else {
+					r.Pass("C06-R5-alias-after-frame-rewrite", construct, sb.pos, "no frame rewrite of %s follows the alias substitution", sb.arg)
+				}
+			}
+		}
+	}
+	r.Floor("C06-R5-alias-after-frame-rewrite", 1)
 	r.Floor("C06-R1-alias-namespace", 15)
 	r.Floor("C06-R2-definition-namespace", 8)
 	r.Floor("C06-R3-parameter-deref", 1)
